@@ -9,6 +9,8 @@ import (
 	sdkmath "cosmossdk.io/math"
 	"github.com/ethereum/go-ethereum/common"
 	ethtypes "github.com/ethereum/go-ethereum/core/types"
+	"github.com/ethereum/go-ethereum/core/vm"
+	"github.com/ethereum/go-ethereum/crypto"
 
 	"verifharness/vh"
 )
@@ -47,6 +49,7 @@ func Ledger(run *vh.Run, which string) {
 		run.Rule = "Same generated workload as C04; per admitted Ethereum transaction the sender's balance delta is compared with receipt gas used x independently recomputed effective price + value moved; rejected transactions must have an empty write set; gas used within [intrinsic, limit]; consensus GasUsed == receipt gas used; cumulative gas == running sum. Non-trivial = distinct (tx type x fee kind x outcome class)."
 		run.Floor("eth transactions that reached execution", run.Get("tx_executed"), int64(run.N(300, 5000)))
 		run.Floor("rejected transactions checked for empty write set", run.Get("tx_rejected"), int64(run.N(40, 600)))
+		run.Floor("storage-clearing transactions where the one-fifth refund cap binds", run.Get("refund_cap_txs_where_the_cap_binds"), int64(run.N(30, 120)))
 		run.Floor("outcome classes", int64(run.DistinctN("outcome")), 6)
 	}
 	run.Assumptions = append(run.Assumptions, "mint inflation is 0 in these worlds so that supply moves only through transactions",
@@ -73,6 +76,86 @@ func ledgerWorld(run *vh.Run, which, label string, wi int, v ledgerCase, nBlocks
 			plans = append(plans, genLedgerTx(w, r, pure))
 		}
 		w.RunPlans(plans, nil, check)
+	}
+	refundCapLeg(run, which, label, w, r, pure, check, v.MaxGas)
+}
+
+// refundCapLeg: storage-clearing transactions with gas limits far above the gas consumed, against an exact
+// reference for one hand-assembled contract ("clearer": empty call data clears slots 1..N, any call data sets
+// them). Gas consumed before the refund G = intrinsic + 15 (CALLDATASIZE, PUSH, JUMPI) + N x (3 + 3 + 5000)
+// (cold SSTORE resetting a slot whose original value is non-zero), refund counter N x 4800 (EIP-3529), applied
+// refund min(counter, G/5): gas used = G - min(4800 N, G/5), whatever the gas limit. The regular ledger checks
+// (exact charge = gas used x price etc.) run on these transactions as on all others.
+func refundCapLeg(run *vh.Run, which, label string, w *vh.World, r *vh.RNG, pure []*vh.Acct, check func(*vh.ObservedBlock, []*vh.TxPlan), maxGas int64) {
+	type clearer struct {
+		addr common.Address
+		n    int
+	}
+	capGas := func(g uint64) uint64 { // finite block gas: a transaction may not ask for more than the block offers
+		if maxGas > 0 && g > uint64(maxGas) {
+			return uint64(maxGas)
+		}
+		return g
+	}
+	// one transaction per block throughout: nothing is dropped for block gas, every transaction is the first of its block
+	one := func(p *vh.TxPlan) *vh.ObservedBlock { return w.RunPlans([]*vh.TxPlan{p}, nil, check) }
+	var cs []clearer
+	dep := pure[0]
+	for _, n := range []int{1, 2, 3, 10, 20} {
+		a := vh.NewAsm().Op(vm.CALLDATASIZE).JumpI("set")
+		for k := 1; k <= n; k++ {
+			a.SStore(uint64(k), 0)
+		}
+		a.Op(vm.STOP).Label("set")
+		for k := 1; k <= n; k++ {
+			a.SStore(uint64(k), 7)
+		}
+		a.Op(vm.STOP)
+		addr := crypto.CreateAddress(dep.Addr, w.C.Nonce(dep.Addr))
+		ob := one(w.PlanEth(dep, nil, nil, capGas(1_000_000), vh.Deployer(a.Bytes()), "ok", nil))
+		if er := vh.EthResponse(ob.Res.TxResults[0]); er != nil && er.VmError == "" {
+			cs = append(cs, clearer{addr, n})
+		}
+	}
+	for round := 0; round < 3; round++ {
+		for i, c := range cs {
+			to := c.addr
+			ob := one(w.PlanEth(pure[i%len(pure)], &to, nil, capGas(1_000_000), []byte{1}, "ok", nil))
+			if er := vh.EthResponse(ob.Res.TxResults[0]); er == nil || er.VmError != "" {
+				continue // the slots were not (all) set: nothing to clear
+			}
+			gl := capGas(uint64(vh.Pick(r, []int{150_000, 400_000, 2_000_000, 5_000_000})))
+			p := w.PlanEth(pure[(i+round)%len(pure)], &to, nil, gl, nil, "ok", nil)
+			ob = one(p)
+			er := vh.EthResponse(ob.Res.TxResults[0])
+			if er == nil || er.VmError != "" {
+				continue // not executed as planned: nothing to compare
+			}
+			// intrinsic gas of the actual transaction (generated fee shapes may carry an access list of unrelated entries)
+			G := vh.IntrinsicGas(p.Tx) + uint64(15+c.n*5006)
+			refund := uint64(c.n * 4800)
+			if refund > G/5 {
+				refund = G / 5
+			}
+			want := G - refund
+			run.Count("refund_cap_txs_checked", 1)
+			if uint64(c.n*4800) > G/5 {
+				run.Count("refund_cap_txs_where_the_cap_binds", 1)
+			}
+			if which == "C05" {
+				run.Eval(1)
+				run.Nontrivial(fmt.Sprintf("refund-cap|slots=%d|gas-limit=%d", c.n, p.Tx.Gas()))
+				if er.GasUsed != want {
+					sig := "gas-used-differs-from-refund-cap-reference"
+					if er.GasUsed < want {
+						sig = "refund-exceeds-one-fifth-of-gas-consumed"
+					}
+					run.Violation(sig, label, map[string]any{"slots_cleared": c.n, "gas_limit": p.Tx.Gas(), "gas_consumed_before_refund": G,
+						"refund_counter": c.n * 4800, "refund_cap_one_fifth": G / 5, "expected_gas_used": want, "observed_gas_used": er.GasUsed,
+						"contract": c.addr.Hex(), "height": ob.Height})
+				}
+			}
+		}
 	}
 }
 
